@@ -67,6 +67,12 @@ pub struct InjOut {
 
 /// one run with a panic injected at tick `at` (0 = counting run)
 pub fn run_injected(sc: &Scenario, at: u64) -> InjOut {
+    run_faulty(sc, at, false, u32::MAX)
+}
+
+/// `lie`: the armed Hash/Eq call answers wrongly instead of panicking; `sticky`: a key number
+/// whose Eq is never true (NaN-like key)
+pub fn run_faulty(sc: &Scenario, at: u64, lie: bool, sticky: u32) -> InjOut {
     let kind = sc.cfg.kind;
     reg_reset();
     reset_ticks();
@@ -75,6 +81,8 @@ pub fn run_injected(sc: &Scenario, at: u64) -> InjOut {
     let a0 = crate::talloc::stats();
     let mut out = InjOut { fired: None, fired_op: String::new(), problem: None, ticks: 0 };
     ticking(true);
+    set_lie(lie);
+    set_sticky_liar(sticky);
     if at > 0 {
         arm(at);
     }
@@ -84,6 +92,8 @@ pub fn run_injected(sc: &Scenario, at: u64) -> InjOut {
         Err(_) => {
             ticking(false);
             disarm();
+            set_lie(false);
+            set_sticky_liar(u32::MAX);
             return out;
         }
     };
@@ -149,6 +159,8 @@ pub fn run_injected(sc: &Scenario, at: u64) -> InjOut {
     }
     ticking(false);
     disarm();
+    set_lie(false);
+    set_sticky_liar(u32::MAX);
     out.ticks = ticks();
     let errs = reg_take_errors();
     if let Some(e) = errs.first() {
@@ -283,7 +295,68 @@ pub fn c18_suite(ctx: &Ctx) -> ShardOut {
     out
 }
 
+/// C03, "chaotic keys" phase: Hash/Eq that answer wrongly once (every position i) and keys
+/// that never equal themselves. Such key types are safe code, so the lists must stay
+/// memory-safe (operations may panic, entries may be lost or leak).
+pub fn c03_chaotic(ctx: &Ctx, out: &mut ShardOut, budget: u64) {
+    let mut rng = Rng::new(mix(ctx.seed, 0xC03C) ^ ctx.shard.wrapping_mul(0x9E37));
+    let deadline = Instant::now() + std::time::Duration::from_secs(ctx.max_secs);
+    let mut runs = 0u64;
+    while runs < budget && Instant::now() < deadline {
+        let sc = gen_scenario(&mut rng, ctx.thorough);
+        // (a) NaN-like key
+        let sticky = sc.uni[rng.below(sc.uni.len() as u64) as usize];
+        let r = run_faulty(&sc, 0, false, sticky);
+        runs += 1;
+        out.cov.monitored += 1;
+        out.cov.triples.insert(format!("chaotic|{}|never-equal-key", sc.cfg.kind.name()));
+        if let Some((rule, d)) = r.problem {
+            let mut extra = BTreeMap::new();
+            extra.insert("sticky".to_string(), sticky.to_string());
+            extra.insert("nkeys".to_string(), sc.uni.len().to_string());
+            out.add(Found {
+                v: Violation { prop: "C03".into(), rule: format!("chaotic-{}", rule), sig: format!("C03|{}|chaotic-{}|never-equal-key", sc.cfg.kind.name(), rule), detail: format!("key {} never compares equal (NaN-like key): {}", sticky, d), step: 0 },
+                cfg: sc.cfg.clone(), kt: KeyType::Tracked, ops: sc.ops.clone(), universe: sc.uni.clone(), seeds: [0; 4], extra,
+            });
+        }
+        // (b) one wrong answer at every Hash/Eq position
+        let n = run_injected(&sc, 0).ticks;
+        let stride = if ctx.inject_stride > 1 { ctx.inject_stride } else { 1 };
+        let mut i = 1 + if stride > 1 { rng.below(stride) } else { 0 };
+        while i <= n {
+            let r = run_faulty(&sc, i, true, u32::MAX);
+            runs += 1;
+            if let Some(site) = r.fired {
+                out.cov.monitored += 1;
+                out.cov.triples.insert(format!("chaotic|{}|{}-lies|{}", sc.cfg.kind.name(), SITE_NAMES[site as usize], r.fired_op));
+            }
+            if let Some((rule, d)) = r.problem {
+                let mut extra = BTreeMap::new();
+                extra.insert("lie-at".to_string(), i.to_string());
+                extra.insert("nkeys".to_string(), sc.uni.len().to_string());
+                let site_name = r.fired.map(|s| SITE_NAMES[s as usize]).unwrap_or("?");
+                out.add(Found {
+                    v: Violation { prop: "C03".into(), rule: format!("chaotic-{}", rule), sig: format!("C03|{}|chaotic-{}|{}", sc.cfg.kind.name(), rule, site_name), detail: format!("user-code call #{} ({}) answered wrongly once: {}", i, site_name, d), step: i as usize },
+                    cfg: sc.cfg.clone(), kt: KeyType::Tracked, ops: sc.ops.clone(), universe: sc.uni.clone(), seeds: [0; 4], extra,
+                });
+            }
+            i += stride;
+        }
+    }
+}
+
 pub fn replay(cfg: &Cfg, ops: &[Op], extra: &BTreeMap<String, String>) -> Option<(String, String)> {
+    if extra.contains_key("sticky") || extra.contains_key("lie-at") {
+        let nk: u32 = extra.get("nkeys")?.parse().ok()?;
+        let sc = Scenario { cfg: cfg.clone(), ops: ops.to_vec(), uni: (0..nk).collect(), clone_at: None };
+        let r = if let Some(s) = extra.get("sticky") {
+            run_faulty(&sc, 0, false, s.parse().ok()?)
+        } else {
+            run_faulty(&sc, extra.get("lie-at")?.parse().ok()?, true, u32::MAX)
+        };
+        println!("fired: {:?} during {}", r.fired.map(|s| SITE_NAMES[s as usize]), r.fired_op);
+        return r.problem;
+    }
     let at: u64 = extra.get("inject-at")?.parse().ok()?;
     let nk: u32 = extra.get("nkeys")?.parse().ok()?;
     let clone_at = extra.get("clone").and_then(|c| {
